@@ -122,4 +122,21 @@ UnspecRule(r) == \/ Unspec(r.exp)
                  \/ (Encloser(r.exp) /\ HasNames(r.exp))               \* U2: rule body is one enclosure with names
                  \/ (Defs(r.exp) \cap DefsL(r.exp) # {})               \* U8: x: and x+: of the same name
 Unspecified == \E i \in 1..Len(G.rules) : UnspecRule(G.rules[i])
+
+\* shapes whose ACCEPTANCE the documents leave open: a cut inside a repetition body that can succeed without consuming input
+\* (the equivalence {x} == B -> x B | e does not terminate for such x; the runtime's "matched on no input" rule decides)
+HasCut(e) == LET RECURSIVE H(_)
+                 H(x) == CASE x.op = "cut" -> TRUE
+                           [] x.op \in Nary -> \E i \in 1..Len(x.es) : H(x.es[i])
+                           [] x.op = "join" -> H(x.e) \/ H(x.sep)
+                           [] x.op \in Unary -> H(x.e)
+                           [] OTHER -> FALSE
+             IN H(e)
+RECURSIVE UAcc(_)
+UAcc(e) == CASE e.op \in {"star", "plus"} -> (Nullable(e.e) /\ HasCut(e.e)) \/ UAcc(e.e)
+             [] e.op = "join" -> (Nullable(e.e) /\ HasCut(e.e)) \/ UAcc(e.e) \/ UAcc(e.sep)
+             [] e.op \in Nary -> \E i \in 1..Len(e.es) : UAcc(e.es[i])
+             [] e.op \in Unary -> UAcc(e.e)
+             [] OTHER -> FALSE
+UnspecifiedAcceptance == \E i \in 1..Len(G.rules) : UAcc(G.rules[i].exp)
 =============================================================================
